@@ -198,8 +198,9 @@ func (dl *datalog) del(key []byte) error {
 }
 
 func (dl *datalog) writeRecord(data []byte, rt recordType) (uint16, uint32, error) {
-	if dl.curSeg.meta.Full || dl.curSeg.size+int64(len(data)) > int64(dl.opts.maxSegmentSize) {
+	if dl.curSeg.meta.Full || (dl.curSeg.size+int64(len(data)) > int64(dl.opts.maxSegmentSize) && !dl.curSeg.empty()) {
 		// Current segment is full, create a new one.
+		// A record larger than the segment capacity is written to an empty segment as is.
 		dl.curSeg.meta.Full = true
 		if err := dl.swapSegment(); err != nil {
 			return 0, 0, err
